@@ -142,8 +142,8 @@ def check(run):
                       'hop %s writes packet field %s (%s): packets must cross a hop unaltered' % (f.norm, a.field.split('::')[-1], a.kind + (':' + a.method if a.method else '')), 'tabled effect')
     if nw < 3:
         run.broke('fewer than 3 packet-field writes found in the sinks (3 confirmed by hand)')
-    run.floor('R9', 3)
-    run.floor('R5', 6)
+    run.floor('R9', 2)
+    run.floor('R5', 4)
 
 
 def resolved(fn, guards, subst):
